@@ -359,6 +359,31 @@ def r5_token_is_not_duplicated_by_the_connection(ctx):
     R.floor("C10.R5", n, 2, "pending-call channels created per connection")
 
 
+
+def r6_stop_is_always_reported_as_stop(ctx):
+    """calls that are executing at stop() are answered because the connection loop learns *that it was stopped*
+    (Receive::Stopped -> Shutdown::Stopped -> the drain). In try_recv the arm taken when the stop future wins the race
+    builds Receive::Stopped on every path - no liveness heuristic (missed pings, ...) may turn a stop into `connection
+    closed`, which skips the drain."""
+    F, R = ctx.F, ctx.R
+    b = F.one(r"^jsonrpsee_server::transport::ws::try_recv::\{closure#0\}$")
+    R.fn(b)
+    outer = [l for l, loc in enumerate(b.locals) if re.match(r"^futures_util::future::Either<\(futures_util::future::Either<", loc["ty"])]
+    stop_arms = set()
+    for l in outer:
+        for sb, arms, other in flow.switch_on(b, l):
+            if arms.get("1") is not None:
+                stop_arms.add(arms["1"])
+    if not stop_arms:
+        raise AnchorLost("the arm of try_recv taken when the stop future wins the select")
+    stopped = {bi for bi, blk in enumerate(b.blocks) for st in blk["st"] if st["s"] == "assign" and st["rv"]["k"] == "agg" and st["rv"].get("variant") == "Stopped" and (st["rv"].get("adt") or "").endswith("ws::Receive")}
+    exits = {bi for bi, blk in enumerate(b.blocks) if blk["term"] and blk["term"]["t"] == "return"}
+    waits = {c.bb for c in b.calls_to(r"future::select$|IntoFuture>?::into_future$")}
+    for t in sorted(stop_arms):
+        ok = bool(stopped) and (t in stopped or flow.all_paths_pass(b, t, stopped, exits | waits))
+        R.check(ok, "C10.R6", "try_recv:stop-arm-reports-stopped", "when the stop future wins, try_recv reports Receive::Stopped", "try_recv can report something else than Receive::Stopped when the stop signal fired (a path from the stop arm leaves without building it): the connection is then torn down as `closed by the peer`, without waiting for the calls that are executing - their answers are lost", "%s:%d" % (b.file, block_line(b, t)))
+
+
 def rloop_event_loops_keep_polling(ctx):
     """a stop request is seen only by a loop that is polling for it: the accept loop and the connection loop suspend only
     at vetted points, each of which races the stop signal (= C11.LOOP)"""
@@ -372,7 +397,7 @@ def rspawn_vetted_spawn_sites(ctx):
     vetted_spawns(ctx, "C10.SPAWN")
 
 
-RULES = [r1_who_keeps_stopped_pending, r2_service_handle, r3_writer_stops_last, r4_http_stop_arm, rspawn_vetted_spawn_sites, rloop_event_loops_keep_polling, r5_token_is_not_duplicated_by_the_connection] + BORROWED
+RULES = [r1_who_keeps_stopped_pending, r2_service_handle, r3_writer_stops_last, r4_http_stop_arm, rspawn_vetted_spawn_sites, rloop_event_loops_keep_polling, r5_token_is_not_duplicated_by_the_connection, r6_stop_is_always_reported_as_stop] + BORROWED
 
 LEVEL_TEXT = (
     "Only the ownership / ordering skeleton of graceful stop is decided (the statement quantifies over schedules): which "
